@@ -866,7 +866,7 @@ func onlyBlank(ls []lexeme) bool {
 
 func init() {
 	register(&Rule{ID: "GRAM.parse", Floor: 20,
-		Doc: "the parser evaluated abstractly through NewExpressionParser/ParseTokens/ResultTokens over finite families of token strings (all strings up to a bounded length over a representative alphabet, all ordered pairs of binary operators, prefix/postfix/call/index against every binary operator, calls, grouping, malformed forms, single-token mutations, spacing/comments/case): every sentence of the statement's grammar is compiled to the post-order of its syntax tree (#tree#…) and every other string is rejected with a coded error (#language#…)",
+		Doc: "the parser evaluated abstractly through NewExpressionParser/ParseTokens/ResultTokens over finite families of token strings (all strings up to a bounded length over a representative alphabet, all ordered pairs of binary operators, prefix/postfix/call/index against every binary operator, calls, grouping, malformed forms, single-token mutations, spacing/comments/case): every sentence of the statement's grammar is compiled to the post-order of its syntax tree (#tree#…) and every other string is rejected with a coded error (#language#…); a position quoted in a rejection is that of the offending token (#error-position#…). Through ParseString the token strings are also submitted as text in many renderings (nothing between lexemes that cannot merge, one blank everywhere, blanks / tabs / line breaks / control characters / comments in every gap and in each gap in turn, keywords in lower and alternating case; white space and comments around the text; Unicode spaces, which are unknown symbols; words that resemble keywords through KELVIN SIGN, dotless i, long s): same program, same acceptance, and the quoted position is the forward-scan line and column of the offending lexeme in the text as given",
 		Run: ruleGramParse})
 }
 
